@@ -91,7 +91,70 @@ def wantedFlush (addr : Ip) (asn id upts : Nat) (post : Bool) (chgs : List Chang
 def locRibOpen (rid : Bytes) (asn : Nat) : Content :=
   .other (s!"(open {asn} 0 {rid.foldl (fun a b => a * 256 + b) 0} (caps (as4 {asn})))".toList.map Char.toNat)
 
+/-! #### a whole eBGP IPv4 session seen by a BMP station with policy `all` (RFC 7854 §3.3, §4.6, §4.9, §4.10,
+RFC 8671 §4, RFC 9069 §4-5).  `sent` / `recv` are the OPEN messages that really went over the session's TCP
+connection (the harness reads them off the wire).
+  * a station connected before the session: Peer Up of the Loc-RIB instance; Peer Up of the peer whose Sent OPEN
+    is `sent` and whose Received OPEN is `recv`; per UPDATE of the peer one pre-policy, one post-policy (L flag)
+    and one Loc-RIB (peer type 3) Route Monitoring carrying it, and the Adj-RIB-Out (O, O|L) withdrawal towards
+    the peer itself; at the end the Loc-RIB withdrawal of the routes still installed and the Peer Down;
+  * a station connecting while the session is up: Peer Up (same OPENs), the installed routes pre- and post-policy,
+    each view closed by End-of-RIB under the peer's header, the Loc-RIB Peer Up, the installed routes and
+    End-of-RIB under the Loc-RIB header (peer type 3), then the same end. -/
+
+def sessionAttrs (rasn : Nat) : List Attr :=
+  [ { code := 1, flags := 64, kind := .val, val := 0, data := [] },
+    { code := 2, flags := 64, kind := .bin, val := 0, data := [2, 1] ++ be4 rasn } ]
+
+def updateOf (rasn : Nat) (a : Bool × Nat × Bytes) : Content :=
+  if a.1 then .reach 65537 [a.2] (some [10, 0, 0, 1]) (sessionAttrs rasn) else .unreach 65537 [a.2]
+
+/-- the Loc-RIB view of an UPDATE: no path identifiers -/
+def noPathIds : Content → Content
+  | .reach f e nh a => .reach f (e.map fun x => (0, x.2)) nh a
+  | .unreach f e => .unreach f (e.map fun x => (0, x.2))
+  | c => c
+
+def installed (acts : List (Bool × Nat × Bytes)) : List (Nat × Bytes) :=
+  acts.foldl (fun acc a => if a.1 then (acc.filter (· != a.2)) ++ [a.2] else acc.filter (· != a.2)) []
+
+def locRibHdr (lasn lrid : Nat) : PeerHdr :=
+  { ptype := 3, flags := 0, dist := 0, addr := .v4 [0, 0, 0, 0], asn := lasn, bgpId := be4 lrid, ts := 0 }
+
+def wantedLive (ap : Bool) (lrid lasn rasn rrid : Nat) (acts : List (Bool × Nat × Bytes)) (late : Bool)
+    (sent recv : Content) (embs : List (Option Bytes)) : List Rec :=
+  -- the Adj-RIB-In views use the add-path setting the two OPENs negotiated (`ap`), everything else none
+  let rm (h : PeerHdr) (c : Content) : Option Bytes → Rec := fun e => .bmpRm h false e c
+  let rmIn (h : PeerHdr) (c : Content) : Option Bytes → Rec := fun e => .bmpRm h ap e c
+  let peer := globalHdr 0 (.v4 [127, 0, 0, 1]) rasn rrid 0
+  let peerL := globalHdr 64 (.v4 [127, 0, 0, 1]) rasn rrid 0
+  let loc := locRibHdr lasn lrid
+  let locUp : Option Bytes → Rec := fun e =>
+    .bmpUp loc (.v4 [0, 0, 0, 0]) 0 0 e (locRibOpen (be4 lrid) lasn) (locRibOpen (be4 lrid) lasn)
+  let peerUp : Option Bytes → Rec := fun e => .bmpUp peer (.v4 [127, 0, 0, 1]) 0 0 e sent recv
+  let left := installed acts
+  let reach (n : Nat × Bytes) : Content := updateOf rasn (true, n)
+  let closing : List (Option Bytes → Rec) :=
+    left.map (fun n => rm loc (.unreach 65537 [(0, n.2)])) ++ [fun _ => .bmpDown peer .remoteUnexpected]
+  let eor (h : PeerHdr) : List (Option Bytes → Rec) := if left.isEmpty then [] else [rm h (.eor 65537)]
+  let early : List (Option Bytes → Rec) :=
+    [locUp, peerUp] ++
+      acts.flatMap (fun a =>
+        [ rmIn peer (updateOf rasn a), rmIn peerL (updateOf rasn a), rm loc (noPathIds (updateOf rasn a)) ] ++
+        (if ap then [] else
+          [ rm (globalHdr 16 (.v4 [127, 0, 0, 1]) rasn rrid 0) (.unreach 65537 [a.2]),
+            rm (globalHdr 80 (.v4 [127, 0, 0, 1]) rasn rrid 0) (.unreach 65537 [a.2]) ])) ++
+      closing
+  let lateL : List (Option Bytes → Rec) :=
+    if late then
+      [peerUp] ++ left.map (fun n => rmIn peer (reach n)) ++ eor peer ++
+        left.map (fun n => rmIn peerL (reach n)) ++ eor peerL ++
+        [locUp] ++ left.map (fun n => rm loc (noPathIds (reach n))) ++ eor loc ++ closing
+    else []
+  zipEmb (early ++ lateL) embs
+
 def wanted : Ev → List Rec
+  | .live ap lrid lasn rasn rrid acts late so ro embs => wantedLive ap lrid lasn rasn rrid acts late so ro embs
   | .flush addr asn id upts post chgs embs => wantedFlush addr asn id upts post chgs embs
   | .dump rid c4 c6 => wantedDump rid c4 c6
   | .rm post c emb =>
@@ -119,6 +182,12 @@ def wantedCase (d : DCase) : Case := { tbl := d.tbl, recs := d.items.flatMap wan
 
 /-! ### the events the rest of the daemon produces -/
 
+/-- not a table-dump record -/
+def noTd : Rec → Bool
+  | .tdPeers .. => false
+  | .tdRib .. => false
+  | _ => true
+
 def srcDom (s : Src) : Bool :=
   ipWf s.raddr && ipWf s.laddr && decide (s.laddr.isV6 = s.raddr.isV6) && decide (s.rasn < 4294967296) &&
     decide (s.lasn < 4294967296) && decide (s.rid < 4294967296)
@@ -131,6 +200,8 @@ def evDom : Ev → Bool
   -- a flush / a dump: every record to be emitted has fields of the widths the encoders can represent (the same
   -- conditions as for packet-level records; the peer-index condition of RIB records is NOT assumed but proved)
   | .flush addr asn id upts post chgs embs => (wantedFlush addr asn id upts post chgs embs).all (recDom none)
+  | .live ap lrid lasn rasn rrid acts late so ro embs =>
+      (wantedLive ap lrid lasn rasn rrid acts late so ro embs).all (fun r => recDom none r && noTd r)
   | .dump rid c4 c6 =>
       (wantedDump rid c4 c6).all (recDom none) && decide (((c4 ++ c6).flatMap (·.paths)).length < 65536)
   | .rm _ c emb => srcDom c.src && decide (c.ts < 4294967296) && updDom c.nlris c.attrs c.nh && emb.isSome
